@@ -1018,6 +1018,8 @@ def from_unicode(
                     edigits += 1
                     if edigits == 3:
                         escaping = False
+                        if total > 255:
+                            raise BadEscape
                         label += chr(total)
             elif c in [".", "\u3002", "\uff0e", "\uff61"]:
                 if len(label) == 0:
@@ -1108,6 +1110,8 @@ def from_text(
                     edigits += 1
                     if edigits == 3:
                         escaping = False
+                        if total > 255:
+                            raise BadEscape
                         label += struct.pack("!B", total)
             elif byte_ == b".":
                 if len(label) == 0:
